@@ -22,7 +22,8 @@ from vcheck import tier1
 for pid, (ref, text, note) in tier1.CLAIMS.items():
     if os.path.exists(os.path.join(ROOT, "coq", "theories", "Properties", pid + ".v")):
         CLAIMS[pid] = dict(category="proof", ref=ref, text=text, note=note,
-                           technique="Coq proof over a hand-written step machine + lockstep correspondence with the real code under a controlled scheduler")
+                           technique=("Coq-checked access discipline over a table regenerated from the Go sources + -race stress search" if pid == "C14" else
+                                      "Coq proof over a hand-written step machine + lockstep correspondence with the real code under a controlled scheduler"))
 
 def main():
     m = {"version": 1, "setup_cmd": "./setup.sh",
